@@ -8,6 +8,8 @@ CONSTANTS
   ServerRun = TRUE
   CasLoserErrors = TRUE
   ExitCheckAfterHandler = TRUE
+  CountAtAccept = TRUE
+  BeyondWait = 150
   PairMod = 1
   NTriple = 70
   HookMod = 1
